@@ -240,3 +240,10 @@ package report
 //@   wf $x != nil && $x.sym != nil && len($x.sym.Name) >= 1
 //@   less PrintAssembly$1
 //@   key $x.sym.Name[0] == $y.sym.Name[0] && $x.sym.Start == $y.sym.Start
+
+// ---- C09 (strengthened after seeded change list-source-loop-continue-past-eof): the listing loop goes on to the next
+// line only after it got the current one — a missing line (end of file, unreadable file) ends the loop, so the number of
+// iterations is bounded by the length of the file and not by a line number taken from the profile.
+//@ func getSourceFromFile nosafety
+//@   loop 2
+//@     step line_was_read: callres("sourceReader.line", 1)
